@@ -36,7 +36,14 @@ def selection_worst(positions):
             opens.append(_pl(p["side"], 2.0 if p.get("line") else price, size))
     best_w = best_l = 0.0
     first = True
-    for r in range(len(opens) + 1):
+    if len(opens) > 12:
+        # enumeration is exponential; the two minima are taken separately over sums of independent terms, so the
+        # minimum over all subsets equals the sum of the negative terms (identical to the enumeration below)
+        best_w = sum(min(0.0, x[0]) for x in opens)
+        best_l = sum(min(0.0, x[1]) for x in opens)
+        opens = []
+        first = False
+    for r in range(len(opens) + 1 if first else 0):
         for S in itertools.combinations(opens, r):
             w = sum(x[0] for x in S)
             l = sum(x[1] for x in S)
